@@ -93,6 +93,25 @@ class C12:
                 op["n"] = prep[0]["n"] if "n" in prep[0] and rng.random() < 0.7 else op["n"]
             cases.append({"kind": "layer", "names": [bl(n) for n in NAMES], "probes": PROBES, "prep": prep, "op": op,
                           "errnos": ERRNOS, "all_errnos": tier == "thorough"})
+        # designed operations that write back what they read (trait API: metadata of the wrong shape on disk,
+        # migrate_incompatible_metadata = replace, then keep / update): a failed READ of an env file, of the
+        # layer TOML or of an exec.d / SBOM source must not be swallowed
+        def env_all(v):
+            return [{"s": {"k": k}, "b": "override", "n": bl(n), "v": bl(v)} for k, n in (("all", "A"), ("build", "B"), ("launch", "PATH"))] + \
+                   [{"s": {"k": "process", "p": bl("web")}, "b": "append", "n": bl("X"), "v": bl(v)}]
+        for strategy in ("keep", "update"):
+            first = {"types": {"launch": True, "build": True, "cache": True}, "m": "G", "strategy": "keep", "migrate": {"d": "recreate"},
+                     "create": {"md": {"other": True}, "env": env_all("v1"), "execd": [[bl("p1"), [0o755, bl("#!/bin/sh\n")]]],
+                                "sboms": [[0, bl("{}")]], "files": [[[bl("bin"), bl("tool")], bl("x")]]},
+                     "update": {"md": {"other": True}, "env": [], "execd": [], "sboms": [], "files": []}}
+            second = {"types": {"launch": True, "build": False, "cache": True}, "m": "V", "strategy": strategy,
+                      "migrate": {"d": "replace", "md": {"version": "2.0"}},
+                      "create": {"md": {"version": "1"}, "env": [], "execd": [], "sboms": [], "files": []},
+                      "update": {"md": {"version": "2.0"}, "env": env_all("v2"), "execd": [], "sboms": [[1, bl("{}")]], "files": []}}
+            prep = [C02P.to_harness({"id": 0, "names": NAMES, "ops": [{"op": "handle", "n": "a", "layer": first}]})["ops"][0], {"op": "restore"}]
+            op = C02P.to_harness({"id": 0, "names": NAMES, "ops": [{"op": "handle", "n": "a", "layer": second}]})["ops"][0]
+            cases.append({"kind": "layer", "names": [bl(n) for n in NAMES], "probes": PROBES, "prep": prep, "op": op,
+                          "errnos": ERRNOS, "all_errnos": tier == "thorough"})
         phases = [base_cfg(exe="build", nargs=3, store="ok", pre=True,
                            build={"error": False, "launch": True, "store": True, "build_sboms": ["cdx", "spdx", "syft"], "launch_sboms": ["cdx", "syft"]}),
                   base_cfg(exe="build", nargs=3, store="missing", pre=False,
